@@ -22,7 +22,11 @@ import (
 	"google.golang.org/grpc/encoding"
 	protoCodec "google.golang.org/grpc/encoding/proto"
 	"google.golang.org/protobuf/proto"
+	"google.golang.org/protobuf/reflect/protodesc"
+	"google.golang.org/protobuf/reflect/protoreflect"
+	"google.golang.org/protobuf/reflect/protoregistry"
 	"google.golang.org/protobuf/types/descriptorpb"
+	"google.golang.org/protobuf/types/dynamicpb"
 	"google.golang.org/protobuf/types/known/structpb"
 	"google.golang.org/protobuf/types/known/wrapperspb"
 )
@@ -122,6 +126,38 @@ func appendVarint(b []byte, v uint64) []byte {
 	return append(b, byte(v))
 }
 
+// vDeclType is a message type that declares the checksum's own field number:
+//   message Rec { string name = 1; fixed32 version = 2047; repeated fixed32 revs = 2046; }
+// (K8: for such a type the prepended field is not an unknown field)
+var vDeclType = func() protoreflect.MessageDescriptor {
+	f32 := descriptorpb.FieldDescriptorProto_TYPE_FIXED32.Enum()
+	str := descriptorpb.FieldDescriptorProto_TYPE_STRING.Enum()
+	opt := descriptorpb.FieldDescriptorProto_LABEL_OPTIONAL.Enum()
+	rep := descriptorpb.FieldDescriptorProto_LABEL_REPEATED.Enum()
+	fd, err := protodesc.NewFile(&descriptorpb.FileDescriptorProto{
+		Name: proto.String("verif_decl.proto"), Package: proto.String("verifdecl"), Syntax: proto.String("proto3"),
+		MessageType: []*descriptorpb.DescriptorProto{{Name: proto.String("Rec"), Field: []*descriptorpb.FieldDescriptorProto{
+			{Name: proto.String("name"), Number: proto.Int32(1), Type: str, Label: opt},
+			{Name: proto.String("revs"), Number: proto.Int32(2046), Type: f32, Label: rep},
+			{Name: proto.String("version"), Number: proto.Int32(2047), Type: f32, Label: opt},
+		}}},
+	}, &protoregistry.Files{})
+	if err != nil {
+		panic(err)
+	}
+	return fd.Messages().Get(0)
+}()
+
+// vDecl is a Rec whose field 2047 is unset.
+func vDecl(rng *rand.Rand) proto.Message {
+	m := dynamicpb.NewMessage(vDeclType)
+	m.Set(vDeclType.Fields().ByNumber(1), protoreflect.ValueOfString(vRandStr(rng, rng.Intn(12))))
+	for i := rng.Intn(3); i > 0; i-- {
+		m.Mutable(vDeclType.Fields().ByNumber(2046)).List().Append(protoreflect.ValueOfUint32(rng.Uint32()))
+	}
+	return m
+}
+
 func vMessage(rng *rand.Rand) proto.Message {
 	var m proto.Message
 	switch rng.Intn(10) {
@@ -192,6 +228,10 @@ func TestVerifChecksum(t *testing.T) {
 	}
 	var ring []held
 	one := func(m proto.Message) {
+		decl := ""
+		if m.ProtoReflect().Descriptor().Fields().ByNumber(checksumField) != nil {
+			decl = fmt.Sprintf(" decl=%d", checksumField)
+		}
 		defer func() {
 			// look again at the results handed out earlier (gRPC keeps them until the frame is written)
 			for i := 0; i+1 < len(ring); i++ {
@@ -227,7 +267,7 @@ func TestVerifChecksum(t *testing.T) {
 				}
 			}
 		}
-		fmt.Fprintf(w, "ck marshal std=%s => out=%s dec=%s\n", hex.EncodeToString(std), hex.EncodeToString(got), dec)
+		fmt.Fprintf(w, "ck marshal std=%s%s => out=%s dec=%s\n", hex.EncodeToString(std), decl, hex.EncodeToString(got), dec)
 		ring = append(ring, held{std: append([]byte{}, std...), got: got, snap: append([]byte{}, got...)})
 		if len(ring) > 4 {
 			ring = ring[1:]
@@ -269,7 +309,12 @@ func TestVerifChecksum(t *testing.T) {
 		}
 	}
 	fmt.Fprintf(w, "ck crc hex=%s => crc=%d\n", hex.EncodeToString([]byte("123456789")), crc32.Checksum([]byte("123456789"), tab))
+	// a message type that declares field 2047 itself (K8)
+	one(vDecl(rng))
 	for ep := 0; ep < episodes; ep++ {
+		if ep%97 == 50 {
+			one(vDecl(rng))
+		}
 		one(vMessage(rng))
 		if ep%4 == 0 {
 			p := make([]byte, rng.Intn(200))
